@@ -19,11 +19,32 @@ theorem page_rest_le_window (pgsz mmapsz pos : Nat) (hpg : 0 < pgsz) (hmm : pgsz
   have h3 : pos % pgsz < pgsz := Nat.mod_lt _ hpg
   omega
 
-theorem getRead_take (file : List Nat) (pgsz pos n : Nat) (hn : n ≤ pgsz - pos % pgsz) :
+theorem getRead_take (file : List Nat) (pgsz pos n : Nat) (hin : pos / pgsz * pgsz < file.length)
+    (hn : n ≤ pgsz - pos % pgsz) :
     (getRead file pgsz pos).take n = some ((List.range n).map fun j => fileByte file (pos + j)) := by
-  unfold getRead FcOut.take
+  unfold getRead
+  rw [if_neg (by omega)]
+  unfold FcOut.take
   simp only
   rw [take_range_map _ hn]
+
+/-- behind the end of the file (and not in block 0) both paths refuse -/
+theorem getRead_refused (file : List Nat) (pgsz pos : Nat) (h0 : 0 < pos / pgsz * pgsz)
+    (hout : file.length ≤ pos / pgsz * pgsz) : getRead file pgsz pos = .nodata := by
+  unfold getRead
+  rw [if_pos ⟨h0, hout⟩]
+
+theorem getMmap_refused (file : List Nat) (pgsz mmapsz pos : Nat)
+    (hout : file.length ≤ pos / pgsz * pgsz) : getMmap file pgsz mmapsz pos = .nodata := by
+  unfold getMmap
+  rw [if_pos hout]
+
+theorem fcacheGet_refused (file : List Nat) (pgsz mmapsz pos : Nat) (h0 : 0 < pos / pgsz * pgsz)
+    (hout : file.length ≤ pos / pgsz * pgsz) (pol : Policy) :
+    (fcacheGet file pgsz mmapsz pol pos).2 = .nodata := by
+  have hr := getRead_refused file pgsz pos h0 hout
+  have hm := getMmap_refused file pgsz mmapsz pos hout
+  cases pol <;> simp [fcacheGet, hr, hm]
 
 theorem getMmap_take (file : List Nat) (pgsz mmapsz pos n : Nat) (hpg : 0 < pgsz)
     (hmm : pgsz ∣ mmapsz) (hm0 : 0 < mmapsz) (hin : pos / pgsz * pgsz < file.length)
@@ -48,7 +69,7 @@ theorem fcacheGet_take (file : List Nat) (pgsz mmapsz pos n : Nat) (hpg : 0 < pg
       some ((List.range n).map fun j => fileByte file (pos + j)) := by
   obtain ⟨hm, hmt⟩ := getMmap_take file pgsz mmapsz pos n hpg hmm hm0 hin hn
   cases pol with
-  | never => exact getRead_take file pgsz pos n hn
+  | never => exact getRead_take file pgsz pos n hin hn
   | always => exact hmt
   | try_ =>
     unfold fcacheGet
